@@ -4,44 +4,46 @@
 (* call is not left in the table; a pooled record is not handed out while still referenced.   *)
 EXTENDS Integers, Sequences, FiniteSets, TLC, Json, IOUtils
 Trace == ndJsonDeserialize(IOEnv.VERIF_TRACE)
-VARIABLES l, tid, running, invOf, outc, valOf, fin, viol, nseg, ncalls, done
-vars == <<l, tid, running, invOf, outc, valOf, fin, viol, nseg, ncalls, done>>
+VARIABLES l, tid, running, invOf, outc, valOf, fin, retd, viol, nseg, ncalls, done
+vars == <<l, tid, running, invOf, outc, valOf, fin, retd, viol, nseg, ncalls, done>>
 Ev == Trace[l]
 Get(f, x, d) == IF x \in DOMAIN f THEN f[x] ELSE d
 Put(f, x, v) == IF x \in DOMAIN f THEN [f EXCEPT ![x] = v] ELSE f @@ (x :> v)
 V(k) == IF Cardinality(viol) >= 40 THEN viol ELSE viol \cup {<<"C13", tid, l, k>>}
 
-TraceInit == l = 1 /\ tid = "none" /\ running = <<>> /\ invOf = <<>> /\ outc = <<>> /\ valOf = <<>> /\ fin = {} /\ viol = {} /\ nseg = 0 /\ ncalls = 0 /\ done = FALSE
+TraceInit == l = 1 /\ tid = "none" /\ running = <<>> /\ invOf = <<>> /\ outc = <<>> /\ valOf = <<>> /\ fin = {} /\ retd = {} /\ viol = {} /\ nseg = 0 /\ ncalls = 0 /\ done = FALSE
 
 Step ==
   /\ l <= Len(Trace) /\ l' = l + 1 /\ UNCHANGED done
   /\ CASE Ev.ev = "reset" ->
-            /\ tid' = Ev.id /\ running' = <<>> /\ invOf' = <<>> /\ outc' = <<>> /\ valOf' = <<>> /\ fin' = {} /\ nseg' = nseg + 1
+            /\ tid' = Ev.id /\ running' = <<>> /\ invOf' = <<>> /\ outc' = <<>> /\ valOf' = <<>> /\ fin' = {} /\ retd' = {} /\ nseg' = nseg + 1
             /\ UNCHANGED <<viol, ncalls>>
        [] Ev.ev = "leader" ->
             \* invOf[c]: the invocation caller c belongs to
             /\ invOf' = Put(invOf, Ev.c, Ev.inv)
             /\ viol' = IF Ev.dups = 1 THEN viol ELSE V("call_record_reinitialised_while_in_use")
             /\ ncalls' = ncalls + 1
-            /\ UNCHANGED <<tid, running, outc, valOf, fin, nseg>>
+            /\ UNCHANGED <<tid, running, outc, valOf, fin, retd, nseg>>
        [] Ev.ev = "joined" ->
             /\ invOf' = Put(invOf, Ev.c, Ev.inv)
-            /\ viol' = IF Ev.inv \in fin THEN V("joined_a_call_that_had_already_finished") ELSE viol
+            \* joining is legal until the call finishes; nobody may join once its result has been handed to a caller
+            /\ viol' = IF Ev.inv \in fin THEN V("joined_a_call_that_had_already_finished")
+                       ELSE IF Ev.inv \in retd THEN V("joined_a_call_whose_result_was_already_delivered") ELSE viol
             /\ ncalls' = ncalls + 1
-            /\ UNCHANGED <<tid, running, outc, valOf, fin, nseg>>
+            /\ UNCHANGED <<tid, running, outc, valOf, fin, retd, nseg>>
        [] Ev.ev = "loadstart" ->
             /\ running' = Put(running, Ev.k, Get(running, Ev.k, 0) + 1)
             /\ viol' = IF Get(running, Ev.k, 0) = 0 THEN viol ELSE V("two_loader_invocations_running_for_one_key")
             /\ valOf' = Put(valOf, Get(invOf, Ev.c, 0), Ev.v)
-            /\ UNCHANGED <<tid, invOf, outc, fin, nseg, ncalls>>
+            /\ UNCHANGED <<tid, invOf, outc, fin, retd, nseg, ncalls>>
        [] Ev.ev = "loadend" ->
             /\ running' = Put(running, Ev.k, Get(running, Ev.k, 1) - 1)
             /\ outc' = Put(outc, Get(invOf, Ev.c, 0), Ev.o)
-            /\ UNCHANGED <<tid, invOf, valOf, fin, viol, nseg, ncalls>>
+            /\ UNCHANGED <<tid, invOf, valOf, fin, retd, viol, nseg, ncalls>>
        [] Ev.ev = "finished" ->
             /\ viol' = IF Ev.intable = 0 THEN viol ELSE V("finished_call_left_in_table")
             /\ fin' = fin \cup {Ev.inv}
-            /\ UNCHANGED <<tid, running, invOf, outc, valOf, nseg, ncalls>>
+            /\ UNCHANGED <<tid, running, invOf, outc, valOf, retd, nseg, ncalls>>
        [] Ev.ev = "ret" ->
             LET i == Get(invOf, Ev.c, 0)
                 o == Get(outc, i, "none")
@@ -50,21 +52,22 @@ Step ==
                        \/ Ev.kind # want
                        \/ (o = "ok" /\ Ev.v # Get(valOf, i, -1))
             IN /\ viol' = IF bad THEN V("caller_result_differs_from_the_invocation_it_joined") ELSE viol
+               /\ retd' = retd \cup {i}
                /\ UNCHANGED <<tid, running, invOf, outc, valOf, fin, nseg, ncalls>>
        [] Ev.ev = "hang" ->
-            /\ viol' = V("caller_blocked") /\ UNCHANGED <<tid, running, invOf, outc, valOf, fin, nseg, ncalls>>
+            /\ viol' = V("caller_blocked") /\ UNCHANGED <<tid, running, invOf, outc, valOf, fin, retd, nseg, ncalls>>
        [] Ev.ev = "noreturn" ->
             \* allowed only for callers of an invocation that ended with Goexit
             /\ viol' = IF Get(outc, Get(invOf, Ev.c, 0), "none") = "goexit" THEN viol ELSE V("caller_never_returned")
-            /\ UNCHANGED <<tid, running, invOf, outc, valOf, fin, nseg, ncalls>>
+            /\ UNCHANGED <<tid, running, invOf, outc, valOf, fin, retd, nseg, ncalls>>
        [] Ev.ev = "end" ->
             /\ viol' = IF Ev.intable = 0 THEN viol ELSE V("table_not_empty_after_all_calls_ended")
-            /\ UNCHANGED <<tid, running, invOf, outc, valOf, fin, nseg, ncalls>>
-       [] OTHER -> UNCHANGED <<tid, running, invOf, outc, valOf, fin, viol, nseg, ncalls>>
+            /\ UNCHANGED <<tid, running, invOf, outc, valOf, fin, retd, nseg, ncalls>>
+       [] OTHER -> UNCHANGED <<tid, running, invOf, outc, valOf, fin, retd, viol, nseg, ncalls>>
 
 Finish ==
   /\ l = Len(Trace) + 1 /\ ~done /\ done' = TRUE
   /\ JsonSerialize(IOEnv.VERIF_RESULT, [lines |-> Len(Trace), consumed |-> l - 1, viol |-> viol, traces |-> nseg, calls |-> ncalls])
-  /\ UNCHANGED <<l, tid, running, invOf, outc, valOf, fin, viol, nseg, ncalls>>
+  /\ UNCHANGED <<l, tid, running, invOf, outc, valOf, fin, retd, viol, nseg, ncalls>>
 TraceSpec == TraceInit /\ [][Step \/ Finish]_vars
 =============================================================================
